@@ -2,6 +2,7 @@ package main
 
 import (
 	"fmt"
+	"os"
 	"time"
 )
 
@@ -35,8 +36,42 @@ type Case struct {
 	Path []Op `json:"path"`
 }
 
-// runHistory executes path on fresh lock instances and checks every step against the reference.
+// runHistory runs the history; a run in which the redis client re-sent a command is repeated, and
+// a failing verdict must reproduce twice more before it is believed (else: ERROR, exit 2).
 func runHistory(path []Op, verbose bool) histResult {
+	e := getEnv()
+	var res histResult
+	for attempt := 0; ; attempt++ {
+		e.resent.Store(false)
+		res = runHistoryOnce(path, verbose)
+		if !e.resent.Load() {
+			break
+		}
+		fmt.Fprintf(os.Stderr, "note: redis client re-sent a command during %v (verdict %q discarded, history re-executed)\n", path, res.class)
+		if attempt >= 5 {
+			fmt.Printf("ERROR the redis client keeps re-sending commands (overloaded machine?); history %v\n", path)
+			os.Exit(2)
+		}
+	}
+	if res.err != "" {
+		for i := 0; i < 2; i++ {
+			e.resent.Store(false)
+			again := runHistoryOnce(path, false)
+			if e.resent.Load() {
+				i--
+				continue
+			}
+			if again.class != res.class {
+				fmt.Printf("ERROR nondeterminism: history %v gave class %q, then %q\n", path, res.class, again.class)
+				os.Exit(2)
+			}
+		}
+	}
+	return res
+}
+
+// runHistoryOnce executes path on fresh lock instances and checks every step against the reference.
+func runHistoryOnce(path []Op, verbose bool) histResult {
 	e := getEnv()
 	w, err := newWorld(e)
 	if err != nil {
